@@ -23,6 +23,7 @@ type Exec struct {
 	curCall     *ssa.CallCommon // the call being executed (dynamic-target resolution)
 	recInfos    map[*ssa.Function]*recInfo
 	havocDepth  int
+	stepHits    map[*Clause]int
 	entry       *State // snapshot of the unit's entry state (for old())
 	depth       int
 	safety      bool // generate no-panic obligations
